@@ -5,8 +5,10 @@ import TapkeeVerif.Proofs.TsneCsrTotal
 import TapkeeVerif.Proofs.TsneKL
 import TapkeeVerif.Proofs.TsneBisect
 import TapkeeVerif.Proofs.TsneVpBuild
+import TapkeeVerif.Proofs.TsneVpBuildNth
 import TapkeeVerif.Model.TsneRun
 import TapkeeVerif.Proofs.QuadTreeForces
+import TapkeeVerif.Proofs.TsneBhExact
 /-!
 # C17 — t-SNE: calibrated similarities from true neighbours, true KL gradient
 
@@ -200,12 +202,19 @@ example : DistinctCols 3 (patternCsr 3 0b100100010) := by
 example : (patternCsr 3 0b100100010).valP.foldl (· + ·) 0 ≠ 0 := by decide +kernel
 example : (2 : Rat) ≠ 0 := by decide
 
-/-- in bounds, every cell written, symmetric, halves of the pair sums, total preserved — all patterns up to 2 × 2 -/
-theorem symmetrizeCsr_small_partial : ∀ N < 3, ∀ mask < 2 ^ (N * N), symChecks N mask = true := by
+/-! TESTS (not obligations).  Both statements are instances of the ∀`N` theorems above — `symmetrizeCsr_inbounds`,
+    `symmetrizeCsr_symm`, `symmetrizeCsr_half_sum`, `symmetrizeCsr_total`, `symmetrizeCsr_wellformed` applied to
+    `patternCsr N mask` (well formed with distinct columns per row by construction; shown for one pattern in the
+    examples above) — and were the round-0
+    partial results (`symmetrizeCsr_small_partial`, `symmetrizeCsr_small3_partial`).  They are kept as kernel-evaluated
+    regression tests of the array plumbing of the executable model only. -/
+
+/-- test: in bounds, every cell written, symmetric, halves of the pair sums, total preserved — all patterns up to 2 × 2 -/
+example : ∀ N < 3, ∀ mask < 2 ^ (N * N), symChecks N mask = true := by
   decide +kernel
 
-/-- … and 64 of the 512 patterns of size 3 × 3 (every eighth) -/
-theorem symmetrizeCsr_small3_partial : ∀ k < 64, symChecks 3 (8 * k + 5) = true := by
+/-- test: … and 64 of the 512 patterns of size 3 × 3 (every eighth) -/
+example : ∀ k < 64, symChecks 3 (8 * k + 5) = true := by
   decide +kernel
 
 /-! ### Barnes–Hut neighbours: the distance handed to the VP-tree -/
@@ -267,6 +276,53 @@ theorem bh_neighbours_of_build {K : Type} [Field K] [LinearOrder K] [IsStrictOrd
         (vpBuild distf pick seg.length 0 0 seg).1 ⟨none, []⟩).heap.map (·.1)) := by
   obtain ⟨-, hp, hnd, hT⟩ := vptree_build_inv distf pick seg
   exact bh_neighbours_true distf _ hm hd _ hT hnd Kn (by rw [hp.length_eq, List.length_range]; exact hkN) q
+
+/-- **`vpBuild ⇒ TInv` for EVERY admissible outcome of `std::nth_element`**: `vpBuildWith distf pick nth` is
+    `buildFromPoints` with the arrangement each `nth_element` call leaves as a parameter; for every distance function,
+    every vantage stream `pick`, every `nth` meeting the library contract `NthOK` (a permutation of the range whose
+    median position holds an element not nearer to the vantage point than those before it and not farther than those
+    after it) and every item list, the build returns a reordering of the items and a tree over the positions
+    `0 … N-1`, each exactly once, with the ball invariant `TInv` that `bh_neighbours_true` assumes -/
+theorem vptree_build_inv_any_nth {K : Type} [Field K] [LinearOrder K] [IsStrictOrderedRing K]
+    (distf : List K → List K → K) (pick : Nat → Nat → Nat)
+    (nth : Nat → Nat × List K → List (Nat × List K) → Nat → List (Nat × List K)) (hn : NthOK distf nth)
+    (seg : List (Nat × List K)) :
+    (vpBuildWith distf pick nth seg.length 0 0 seg).2.1.Perm seg ∧
+    (toTree (vpBuildWith distf pick nth seg.length 0 0 seg).1).points.Perm (List.range seg.length) ∧
+    (toTree (vpBuildWith distf pick nth seg.length 0 0 seg).1).points.Nodup ∧
+    VpTree.TInv (posDist distf fun p => (((vpBuildWith distf pick nth seg.length 0 0 seg).2.1[p]?).map (·.2)).getD [])
+      (toTree (vpBuildWith distf pick nth seg.length 0 0 seg).1) := by
+  have ok := vpBuildWith_ok distf pick nth hn seg.length 0 0 seg (Nat.le_refl _)
+  have hp : (toTree (vpBuildWith distf pick nth seg.length 0 0 seg).1).points.Perm (List.range seg.length) := by
+    rw [List.range_eq_range']; exact ok.points
+  refine ⟨ok.perm, hp, hp.nodup_iff.2 List.nodup_range, ok.inv _ ?_⟩
+  intro j hj
+  simp [List.getElem?_eq_getElem hj]
+
+/-- … hence the `K + 1` search is exact on every tree `buildFromPoints` can build, whatever `nth_element` does within
+    its contract -/
+theorem bh_neighbours_of_build_any_nth {K : Type} [Field K] [LinearOrder K] [IsStrictOrderedRing K]
+    (distf : List K → List K → K) (pick : Nat → Nat → Nat)
+    (nth : Nat → Nat × List K → List (Nat × List K) → Nat → List (Nat × List K)) (hn : NthOK distf nth)
+    (seg : List (Nat × List K))
+    (hm : VpTree.IsMetric
+      (posDist distf fun p => (((vpBuildWith distf pick nth seg.length 0 0 seg).2.1[p]?).map (·.2)).getD []))
+    (hd : ∀ a b, 0 ≤ distf a b) (Kn : Nat) (hkN : Kn + 1 ≤ seg.length) (q : Nat) :
+    Knn.IsKNearest
+      (posDist distf fun p => (((vpBuildWith distf pick nth seg.length 0 0 seg).2.1[p]?).map (·.2)).getD []) q
+      (toTree (vpBuildWith distf pick nth seg.length 0 0 seg).1).points (Kn + 1)
+      ((vpSearch distf (fun p => (((vpBuildWith distf pick nth seg.length 0 0 seg).2.1[p]?).map (·.2)).getD [])
+        ((fun p => (((vpBuildWith distf pick nth seg.length 0 0 seg).2.1[p]?).map (·.2)).getD []) q) (Kn + 1)
+        (vpBuildWith distf pick nth seg.length 0 0 seg).1 ⟨none, []⟩).heap.map (·.1)) := by
+  obtain ⟨-, hp, hnd, hT⟩ := vptree_build_inv_any_nth distf pick nth hn seg
+  exact bh_neighbours_true distf _ hm hd _ hT hnd Kn (by rw [hp.length_eq, List.length_range]; exact hkN) q
+
+/-- the executable `vpBuild` (what the driver runs and `vptree_build_inv` is about) is the instance `nth = sortNth`,
+    a stable sort of the tail — which meets the contract (non-vacuity of `NthOK`) -/
+theorem vpBuild_is_sortNth {K : Type} [Field K] [LinearOrder K] [IsStrictOrderedRing K]
+    (distf : List K → List K → K) (pick : Nat → Nat → Nat) (fuel : Nat) :
+    vpBuild distf pick fuel = vpBuildWith distf pick (sortNth distf) fuel ∧ NthOK distf (sortNth distf) :=
+  ⟨vpBuild_eq_with distf pick fuel, sortNth_ok distf⟩
 
 /-! non-vacuity: two items on a line under `|a − b|` -/
 def dist1 (a b : List Rat) : Rat := |a.headD 0 - b.headD 0|
@@ -336,14 +392,108 @@ theorem exactGradientSpec_apply {N D : Nat} (P : Mat N N K) (Y : Mat N D K) (n :
             (∑ a, ∑ c, if a = c then 0 else 1 / (1 + sqEuclid Y a c))) * (1 / (1 + sqEuclid Y n m))) := by
   simp only [exactGradientSpec, exactGradientOf, sumFin_eq_sum]
 
-/- `bh_theta0_eq_exact`: by `QuadTree.forces_exact_below_threshold` (Props/C18) the pair `(neg_f, ΣQ-contribution)`
-   returned by the tree for point `n` equals `(Σ_{m≠n} q²(y_n − y_m), Σ_{m≠n} q)` for all `θ` below a positive threshold
-   when no two map points coincide; substituting into `gradient_identity` gives `bhGradient = exactGradientSpec` for
-   such `θ`.  The substitution through the flat-buffer model (`bhGradient`, with its `Except` bounds checks) is not
-   carried out in Lean; the correspondence check compares both on every generated case at `θ = 1e-6` (oracle `bh0`).
-
-   -/
 end
+
+/-! ### the Barnes–Hut gradient `computeGradient` (flat buffers, `QT_NO_DIMS = 2`) against the exact gradient
+
+`mapOf N Y` is the flat map buffer `Y[n*2+d]` read as a matrix, `csrMat N c` the CSR similarities read as a dense matrix
+(`Proofs/TsneBhExact.lean`), `DistinctMap N Y` says that no two of the `N` map points coincide.  The model's only other
+outcome is the explicit "out of quadtree fuel" state; `bh_theta0_eq_exact_total` removes it. -/
+section
+variable {K : Type} [Field K] [LinearOrder K] [IsStrictOrderedRing K]
+
+/-- **in bounds** — for every `θ`, every well-formed CSR matrix and every map buffer of `N·2` cells, no read or write of
+    `computeGradient` / `computeEdgeForces` / the per-point `computeNonEdgeForces` calls leaves `Y`, `pos_f`, `neg_f`,
+    `dC`, `row_P`, `col_P`, `val_P` (the model's `Err.oob`); the result has `N·2` cells -/
+theorem bhGradient_inbounds (fuel N : Nat) (eps θ : K) (c : Csr K) (hw : c.wellFormed N = true) (Y : Array K)
+    (hY : Y.size = N * 2) :
+    bhGradient fuel eps θ N 2 c Y = .error (.oob "quadtree: out of fuel") ∨
+    ∃ g, bhGradient fuel eps θ N 2 c Y = .ok g ∧ g.size = N * 2 := by
+  rw [bhGradient_eq fuel N eps θ c hw Y hY]
+  cases QuadTree.buildIn (dataOf N Y) fuel (rootOf eps N Y) (List.range N) with
+  | none => exact Or.inl rfl
+  | some tree => exact Or.inr ⟨_, rfl, bhResult_size N θ c (wfc_of_wellFormed N c hw) Y tree⟩
+
+/-- **`bh_theta0_eq_exact`** — for every `N`, every well-formed CSR similarity matrix `P` and every map without
+    coincident points, `computeGradient` at `θ = 0` returns, cell by cell, the exact gradient formula over the true
+    squared distances with the same `P`:  `dC[n*2+d] = Σ_{m≠n} (y_n − y_m)_d (p_nm − q_nm/ΣQ) q_nm`.
+    (With `θ = 0` the summary criterion holds on no internal cell, the tree stores every point once —
+    `QuadTree.forces_theta0_exact`, here for the running `sum_Q` accumulator — and
+    `pos_f − neg_f/ΣQ` is the exact summand, `gradient_identity`.) -/
+theorem bh_theta0_eq_exact (fuel N : Nat) (eps : K) (heps : 0 ≤ eps) (c : Csr K) (hw : c.wellFormed N = true)
+    (Y : Array K) (hY : Y.size = N * 2) (hd : DistinctMap N Y) :
+    bhGradient fuel eps 0 N 2 c Y = .error (.oob "quadtree: out of fuel") ∨
+    ∃ g, bhGradient fuel eps 0 N 2 c Y = .ok g ∧ g.size = N * 2 ∧
+      ∀ (n : Fin N) (d : Fin 2), g.getD (n.1 * 2 + d.1) 0 = exactGradientSpec (csrMat N c) (mapOf N Y) n d := by
+  rw [bhGradient_eq fuel N eps 0 c hw Y hY]
+  cases hb : QuadTree.buildIn (dataOf N Y) fuel (rootOf eps N Y) (List.range N) with
+  | none => exact Or.inl rfl
+  | some tree =>
+    exact Or.inr ⟨_, rfl, bhResult_size N 0 c (wfc_of_wellFormed N c hw) Y tree,
+      bhResult_zero_getD fuel N eps heps c (wfc_of_wellFormed N c hw) Y hd tree hb⟩
+
+/-- **θ → 0** — for every map (coincident points allowed) there is a threshold `θ₀ > 0` below which `computeGradient`
+    returns exactly what it returns at `θ = 0` (the padding `eps` of the root cell is positive: `1e-5` in the code) -/
+theorem bh_small_theta_eq_theta0 (fuel N : Nat) (eps : K) (heps : 0 < eps) (c : Csr K) (hw : c.wellFormed N = true)
+    (Y : Array K) (hY : Y.size = N * 2) :
+    ∃ θ₀ : K, 0 < θ₀ ∧ ∀ θ, θ < θ₀ → bhGradient fuel eps θ N 2 c Y = bhGradient fuel eps 0 N 2 c Y := by
+  cases hb : QuadTree.buildIn (dataOf N Y) fuel (rootOf eps N Y) (List.range N) with
+  | none =>
+    exact ⟨1, one_pos, fun θ _ => by
+      rw [bhGradient_eq fuel N eps θ c hw Y hY, bhGradient_eq fuel N eps 0 c hw Y hY, hb]⟩
+  | some tree =>
+    obtain ⟨θ₀, hpos, h⟩ := bhResult_small_theta fuel N eps heps c Y tree hb
+    exact ⟨θ₀, hpos, fun θ hθ => by
+      rw [bhGradient_eq fuel N eps θ c hw Y hY, bhGradient_eq fuel N eps 0 c hw Y hY, hb]
+      simp only [h θ hθ]⟩
+
+/-- **the chain without the fuel case** (ℚ, ℝ, any Archimedean ordered field): for every map without coincident points
+    there are a fuel bound and a threshold `θ₀ > 0` such that for every larger fuel and every `θ < θ₀` the Barnes–Hut
+    gradient IS the exact gradient -/
+theorem bh_theta0_eq_exact_total [Archimedean K] (N : Nat) (eps : K) (heps : 0 < eps) (c : Csr K)
+    (hw : c.wellFormed N = true) (Y : Array K) (hY : Y.size = N * 2) (hd : DistinctMap N Y) :
+    ∃ fuel0, ∀ fuel, fuel0 ≤ fuel → ∃ θ₀ : K, 0 < θ₀ ∧ ∀ θ, θ < θ₀ →
+      ∃ g, bhGradient fuel eps θ N 2 c Y = .ok g ∧ g.size = N * 2 ∧
+        ∀ (n : Fin N) (d : Fin 2), g.getD (n.1 * 2 + d.1) 0 = exactGradientSpec (csrMat N c) (mapOf N Y) n d := by
+  obtain ⟨fuel0, hf⟩ := build_fuel_exists N eps Y
+  refine ⟨fuel0, fun fuel hfl => ?_⟩
+  obtain ⟨tree, hb⟩ := Option.isSome_iff_exists.1 (hf fuel hfl)
+  obtain ⟨θ₀, hpos, h⟩ := bh_small_theta_eq_theta0 fuel N eps heps c hw Y hY
+  refine ⟨θ₀, hpos, fun θ hθ => ?_⟩
+  rw [h θ hθ]
+  rcases bh_theta0_eq_exact fuel N eps (le_of_lt heps) c hw Y hY hd with he | hg
+  · rw [bhGradient_eq fuel N eps 0 c hw Y hY, hb] at he
+    exact absurd he (by simp)
+  · exact hg
+end
+
+/-! non-vacuity: three map points (0,0), (1,0), (0,1), the 3 × 3 similarity pattern used above, `eps = 1e-5`: the
+    hypotheses hold and the model returns a gradient (fuel 8 is enough) -/
+def mapW : Array Rat := #[0, 0, 1, 0, 0, 1]
+
+example : (patternCsr 3 0b100100010).wellFormed 3 = true := by decide +kernel
+example : mapW.size = 3 * 2 := by decide
+example : DistinctMap 3 mapW := by
+  intro n m hnm h
+  have h0 := congrFun h 0
+  have h1 := congrFun h 1
+  revert hnm h0 h1
+  fin_cases n <;> fin_cases m <;> decide +kernel
+example : (match bhGradient 8 (1 / 100000 : Rat) 0 3 2 (patternCsr 3 0b100100010) mapW with
+    | .ok g => g.size == 6
+    | .error _ => false) = true := by decide +kernel
+
+/-- Remark (a test, not a theorem): `DistinctMap` is what the proof uses (through C18's per-point `forces_theta0_exact`,
+    which is false for coincident points: the resident of a shared leaf skips its twins, a twin counts itself), but on
+    the map (0,0), (0,0), (1,0) the gradient is still the exact one — the per-point errors of `sum_Q` cancel in the
+    running total and coincident points exert no force.  Whether this holds for every map with coincident points is
+    not proved. -/
+def mapTwin : Array Rat := #[0, 0, 0, 0, 1, 0]
+
+example : (match bhGradient 8 (1 / 100000 : Rat) 0 3 2 (patternCsr 3 0b100100010) mapTwin with
+    | .ok g => decide (∀ n : Fin 3, ∀ d : Fin 2,
+        g.getD (n.1 * 2 + d.1) 0 = exactGradientSpec (csrMat 3 (patternCsr 3 0b100100010)) (mapOf 3 mapTwin) n d)
+    | .error _ => false) = true := by decide +kernel
 
 /-- **`exactGradient_is_grad_KL`** — over ℝ: for every symmetric `P` whose off-diagonal entries sum to one and every map
     `Y`, the Kullback–Leibler divergence `Y ↦ Σ_{a≠c} P_ac log (P_ac / Q_ac(Y))` (`Q` the Student-t similarities
